@@ -20,7 +20,7 @@ ENGINES = [
      "serves_properties": ["C22", "C26"],
      "kind_free_text": "stateless schedule exploration (iterative preemption bounding) of real Python threads under a "
                        "baton scheduler"},
-    {"name": "E4-sched-C", "path": "harness/embed_harness.c",
+    {"name": "E4-sched-C", "path": "harness/c28/world.c",
      "serves_properties": ["C28"],
      "kind_free_text": "schedule exploration of the unchanged _embedding.h text compiled against a stub CPython"},
     {"name": "E5-crash", "path": "vlib/props/c23.py",
